@@ -4,7 +4,7 @@ import re
 
 from ..model import AnalysisError
 from ..lib import (FV, decode_new, decode_call, phi_members, is_sym, is_const, is_str, strip_stores, stores_of, tuple_consts,
-                   find_assign, find_assigns, simple_assigns, local_term, call_name)
+                   find_assign, find_assigns, simple_assigns, local_term, call_name, cond_equiv, cond_implies, path_term)
 from ..cfg import always_raises, walk_stmts
 from . import common as cm
 from . import geom
@@ -22,6 +22,14 @@ ANCHORS = [
     'io._MeshIO._subregion_filename',
 ]   # functions whose code the property is anchored in (mutation analysis, evidence)
 OVF = "io.ovf._FieldIO_OVF."
+AUTOMUT_TRIAGE = [
+    (r"_to_ovf$", r"chunksize = ", "equivalent: any chunk size writes the same bytes (C09.D5 ties count and slices to it)"),
+    (r"_from_ovf$", r"read_csv.*drop keyword (nrows|comment)=", "equivalent one at a time: the row limit and the '#' comment rule each "
+     "keep the footer out (C09.D9 demands at least one of them)"),
+    (r"_from_ovf$", r"read_csv.*drop keyword dtype=", "changes the dtype of integer-looking text data, not the values within 1e-9"),
+    (r"to_file$", r"_to_vtk", "options of the VTK writer are C16's subject"),
+    (r"_subregions$", r"drop keyword (encoding|mode)=", "equivalent on this platform: UTF-8 default encoding / 'r' is open()'s default mode"),
+]
 
 # OVF 2.0 specification (OOMMF user guide, "OVF 2.0 format"): keys of a rectangular-mesh segment header
 OVF2_REQUIRED = ["Title", "meshtype", "meshunit", "xbase", "ybase", "zbase", "xnodes", "ynodes", "znodes",
@@ -72,6 +80,7 @@ def run(chk):
     d6_codecs(chk, repo, v, r)
     d7_extend_scalar(chk, repo, v)
     d8_dispatch(chk, repo)
+    d9_details(chk, repo, v, r)
     chk.trust("OVF 2.0 specification (OOMMF user guide): header keys of a rectangular mesh, x-fastest data order, check values "
               "1234567.0 (4 byte) and 123456789012345.0 (8 byte), little-endian for 2.0, big-endian for 1.0")
     chk.trust("struct format codes '<f' '<d' '>f' '>d'; ndarray.flat / reshape flatten in C order (last axis fastest)")
@@ -623,3 +632,219 @@ def d8_dispatch(chk, repo):
     l = FV(repo, "io._MeshIO.load_subregions", self_type=MESH)
     same = "_subregion_filename" in ast.unparse(m.f.node) and "_subregion_filename" in ast.unparse(l.f.node)
     chk.ob("io._MeshIO::side-car-name-shared", same, "C09.D8", "writer and reader must derive the side-car name the same way", m.f)
+
+
+# ------------------------------------------------------------------ D9
+def _calls_named(v, name):
+    out = []
+    for call, st in v.calls():
+        c = decode_call(v.ctx, v.term(call, at=st))
+        if c and c[0] == name:
+            out.append((call, st, c))
+    return out
+
+
+def d9_details(chk, repo, v, r):
+    chk.rule("C09.D9", "branch selection and format details: the binary block is written exactly for the binary representations "
+                       "and read exactly for files whose data line says Binary; scalar fields extended to three components get "
+                       "two zero components after the value; text rows are space separated without header or index; header "
+                       "lines are split at the first colon into key and value; labels lose their prefix only when they have "
+                       "one; the unit is the single repeated unit; every file extension is routed to its own format")
+    # ---- writer: which block
+    packs = _calls_named(v, "struct.pack")
+    csvs = _calls_named(v, ".to_csv")
+    chk.require(packs and csvs, "_to_ovf: the check-value write or the text writer vanished")
+    tbl = _dict_literal(v, ["bin4", "bin8"])
+    chk.require(tbl is not None, "_to_ovf: binary table vanished")
+    want_bin = v.spec(f"representation in {tbl[1]}", at=packs[0][1])
+    chk.ob("io.ovf._to_ovf::binary-block-iff-binary-representation", cond_equiv(v, path_term(v, packs[0][1]), want_bin), "C09.D9",
+           f"the check value is written under {v.show(path_term(v, packs[0][1]))[:120]}; expected: representation is bin4 or bin8",
+           v.f, packs[0][1])
+    chk.ob("io.ovf._to_ovf::text-block-iff-text-representation",
+           cond_equiv(v, path_term(v, csvs[0][1]), v.ev._not(want_bin)), "C09.D9",
+           f"text rows are written under {v.show(path_term(v, csvs[0][1]))[:120]}; expected: representation is not a binary one",
+           v.f, csvs[0][1])
+    # ---- writer: scalar extended to three components
+    stacks = _calls_named(v, "np.stack")
+    chk.require(len(stacks) == 1, "_to_ovf: expected one np.stack (extension of scalar fields)")
+    call, st, c = stacks[0]
+    okx = False
+    if c[1]:
+        tup = v.ctx.args_of(c[1][0]) if (v.ctx.head_of(c[1][0]) or ("",))[0] == "tuple" else ()
+        if len(tup) == 3:
+            base = tup[0]
+            z = v.spec("np.zeros_like(b)", env={"b": base})
+            okx = v.eq(tup[1], z) and v.eq(tup[2], z) and "axis" in c[2] and is_const(v.ctx, c[2]["axis"], -1) and \
+                v.eq(base, v.spec("self.array.transpose((2, 1, 0, 3)).reshape(list(reversed(self.mesh.n)))"))
+    chk.ob("io.ovf._to_ovf::extended-scalar-binary", okx, "C09.D9",
+           f"`{v.src(call)[:100]}`: expected the (z, y, x) array followed by two zero components along a new last axis", v.f, st)
+    ins = _calls_named(v, ".insert")
+    got = sorted((v.show(c_[2].get("loc")), v.show(c_[2].get("value"))) for _, _, c_ in ins)
+    complete = all(len(c_[1]) - 1 + len(c_[2]) == 3 and ("column" in c_[2] or len(c_[1]) >= 3) for _, _, c_ in ins)
+    chk.ob("io.ovf._to_ovf::text-columns", got == [("0", "''"), ("2", "0"), ("3", "0")] and complete, "C09.D9",
+           f"text columns inserted at (position, value) {got}; expected an empty leading column and, for extended scalars, zero "
+           "columns right after the value column", v.f, ins[0][1] if ins else None)
+    for call, st, c_ in ins:
+        if not is_const(v.ctx, c_[2].get("loc", v.ctx.const(-9)), 0):
+            pt = path_term(v, st)
+            chk.ob(f"io.ovf._to_ovf::text-extension-iff-extended@{v.show(c_[2].get('loc'))}",
+                   cond_implies(v, pt, v.spec("extend_scalar and self.nvdim == 1")) and
+                   cond_implies(v, v.ev._bool("and", [v.spec("extend_scalar and self.nvdim == 1"), v.ev._not(want_bin)]), pt),
+                   "C09.D9", f"zero column inserted under {v.show(pt)[:140]}", v.f, st)
+    call, st, c_ = csvs[0]
+    okc = is_str(v.ctx, c_[2].get("sep", v.ctx.const(0)), " ") and is_const(v.ctx, c_[2].get("header", v.ctx.const(0)), False) and \
+        is_const(v.ctx, c_[2].get("index", v.ctx.const(0)), False)
+    chk.ob("io.ovf._to_ovf::text-format", okc, "C09.D9",
+           f"`{v.src(call)}`: rows must be space separated, without a header row and without the row index", v.f, st)
+    # ---- reader
+    roles = _reader_roles(r)
+    chk.require("mode" in roles and "nbytes" in roles, "_from_ovf: mode / nbytes assignments not found")
+    mode_name = roles["mode"][1]
+    ff = _calls_named(r, "np.fromfile")
+    rc = _calls_named(r, "pandas.read_csv") or _calls_named(r, "pd.read_csv")
+    chk.require(ff and rc, "_from_ovf: np.fromfile / read_csv vanished")
+    is_bin = r.spec(f"{mode_name} == 'binary'", at=ff[0][1])
+    chk.ob("io.ovf._from_ovf::binary-read-iff-binary-file", cond_equiv(r, path_term(r, ff[0][1]), is_bin), "C09.D9",
+           f"np.fromfile runs under {r.show(path_term(r, ff[0][1]))[:140]}; expected: the data line says Binary", r.f, ff[0][1])
+    chk.ob("io.ovf._from_ovf::text-read-iff-text-file", cond_equiv(r, path_term(r, rc[0][1]), r.ev._not(is_bin)), "C09.D9",
+           f"read_csv runs under {r.show(path_term(r, rc[0][1]))[:140]}; expected: the data line does not say Binary", r.f, rc[0][1])
+    nb = roles["nbytes"][0]
+    par = r.cfg.parent.get(id(nb))
+    oknb = bool(par and isinstance(par[0], ast.If) and par[1] == "body" and
+                r.eq(r.ev.term(par[0].test, at=par[0]), r.spec(f"{mode_name} == 'binary'", at=par[0])))
+    chk.ob("io.ovf._from_ovf::byte-count-iff-binary", oknb, "C09.D9",
+           "the byte count is parsed from the data line exactly for binary files", r.f, nb)
+    # fromfile result is one row per cell
+    okrs = False
+    for call, st, c_ in _calls_named(r, ".reshape"):
+        inner = decode_call(r.ctx, c_[1][0])
+        if inner and inner[0] == "np.fromfile":
+            hdr = local_term(r, roles["header"], st)
+            okrs = r.eq(c_[1][1], r.spec("(-1, H['valuedim'])", env={"H": hdr}))
+    chk.ob("io.ovf._from_ovf::binary-rows", okrs, "C09.D9", "the binary block must be reshaped to (-1, valuedim)", r.f, ff[0][1])
+    kw = rc[0][2][2]
+    okk = is_str(r.ctx, kw.get("sep", r.ctx.const(0)), " ") and is_const(r.ctx, kw.get("header", r.ctx.const(0)), None) and \
+        is_const(r.ctx, kw.get("skipinitialspace", r.ctx.const(0)), True) and \
+        (is_str(r.ctx, kw.get("comment", r.ctx.const(0)), "#") or
+         ("nrows" in kw and r.eq(kw["nrows"], local_term(r, roles["nodes"][1], rc[0][1]))))
+    chk.ob("io.ovf._from_ovf::text-format", okk, "C09.D9",
+           f"`{r.src(rc[0][0])[:120]}`: rows are space separated with leading blanks, there is no header row, and the footer "
+           "must be kept out (row limit = number of nodes, or '#' comments)", r.f, rc[0][1])
+    drops = _calls_named(r, ".drop")
+    for call, st, c_ in drops:
+        pt = r.ev.term(r.cfg.parent[id(st)][0].test, at=r.cfg.parent[id(st)][0]) if isinstance(r.cfg.parent.get(id(st), (None,))[0], ast.If) else None
+        frame = c_[1][0]
+        hdr = local_term(r, roles["header"], st)
+        okd = pt is not None and r.eq(pt, r.spec("len(A.columns) == H['valuedim'] + 1", env={"A": frame, "H": hdr})) and \
+            len(c_[1]) == 2 and r.eq(c_[1][1], r.spec("A.columns[-1]", env={"A": frame})) and \
+            is_const(r.ctx, c_[2].get("axis", r.ctx.const(0)), 1) and is_const(r.ctx, c_[2].get("inplace", r.ctx.const(0)), True)
+        chk.ob("io.ovf._from_ovf::trailing-column", okd, "C09.D9",
+               f"`{r.src(call)}` under `{r.src(r.cfg.parent[id(st)][0].test) if pt is not None else '?'}`: exactly one surplus column "
+               "(trailing blanks of foreign writers) is removed, the last one, in place", r.f, st)
+    # header lines
+    okh = False
+    for st in r.stmts():
+        if isinstance(st, ast.Assign) and isinstance(st.targets[0], ast.Subscript) and isinstance(st.targets[0].value, ast.Name) \
+                and st.targets[0].value.id == roles["header"]:
+            idx = r.ev._index(st.targets[0].slice, r.cfg.node(st), None)
+            if is_str(r.ctx, idx):
+                continue
+            val = r.term(st.value, at=st)
+            ci = decode_call(r.ctx, idx)
+            if ci and ci[0] == ".strip":
+                h0 = r.ctx.head_of(ci[1][0])
+                if h0 and h0[0] == "sub":
+                    parts = r.ctx.args_of(ci[1][0])[0]
+                    cs = decode_call(r.ctx, parts)
+                    line_ok = bool(cs and cs[0] == ".split" and len(cs[1]) == 2 and is_str(r.ctx, cs[1][1], ":"))
+                    src_ = cs[1][0] if line_ok else None
+                    hs = r.ctx.head_of(src_) if src_ is not None else None
+                    okh = line_ok and r.eq(idx, r.spec("P[0].strip()", env={"P": parts})) and \
+                        r.eq(val, r.spec("P[1].strip()", env={"P": parts})) and \
+                        cond_equiv(r, path_term(r, st), r.spec("len(P) > 1", env={"P": parts}), [r.spec("len(P)", env={"P": parts})]) \
+                        and bool(hs and hs[0] == "sub" and r.eq(src_, r.spec("L[1:]", env={"L": r.ctx.args_of(src_)[0]})))
+    chk.ob("io.ovf._from_ovf::header-lines", okh, "C09.D9",
+           "a header line '# key: value' must be stored as key = text before the first colon (without the leading #), value = "
+           "text after it, both stripped, for lines that contain a colon", r.f)
+    # labels
+    conv = None
+    for fi in repo.funcs.values():
+        if fi.parent is not None and fi.parent.qual == r.f.qual and fi.node.name == "convert":
+            conv = fi
+    for fi in repo.funcs.values():
+        if conv is None and fi.parent is not None and fi.parent.qual == r.f.qual:
+            conv = fi
+    if conv is not None:
+        w = FV(repo, conv.qual, ctx=r.ctx) if False else FV(repo, conv.qual)
+        pname = conv.node.args.args[0].arg
+        first = [s_ for s_ in w.stmts() if isinstance(s_, ast.Assign)]
+        okl = bool(first) and w.eq(w.term(first[0].value, at=first[0]),
+                                   w.spec(f"{pname}.split('_', 1)[1] if '_' in {pname} else {pname}"))
+        chk.ob("io.ovf._from_ovf.convert::prefix-only-when-present", okl, "C09.D9",
+               f"`{w.src(first[0]) if first else '?'}`: the part before the first underscore is dropped exactly when there is an "
+               "underscore; other labels are kept whole", w.f, first[0] if first else None)
+    # labels unique or none; units
+    resets = []
+    for st in r.stmts():
+        if isinstance(st, ast.Assign) and isinstance(st.targets[0], ast.Name) and isinstance(st.value, ast.Constant) and st.value.value is None:
+            resets.append(st)
+    lab = [st for st in resets if isinstance(r.cfg.parent.get(id(st), (None,))[0], ast.If)
+           and any(hd == ("str", "valuelabels") for hd in r.ctx.heads_in(path_term(r, st)))]
+    oklab = False
+    for st in lab:
+        L = local_term(r, st.targets[0].id, r.cfg.parent[id(st)][0])
+        oklab = cond_equiv(r, path_term(r, st), r.spec("len(L) != len(set(L))", env={"L": L}))
+    chk.ob("io.ovf._from_ovf::duplicate-labels-dropped", oklab, "C09.D9",
+           "labels must be discarded exactly when they are not unique", r.f, lab[0] if lab else None)
+    ul = find_assign(r, lambda t_, s_: (decode_call(r.ctx, t_) or ("",))[0] == ".split" and
+                     any(hd == ("str", "valueunits") for hd in r.ctx.heads_in(t_)))
+    if ul is not None:
+        U = ul[2]
+        nU = r.spec("len(U)", env={"U": U})
+        nS = r.spec("len(set(U))", env={"U": U})
+        takes = [st for st in r.stmts() if isinstance(st, ast.Assign) and isinstance(st.targets[0], ast.Name)
+                 and r.eq(r.term(st.value, at=st), r.spec("U[0]", env={"U": U}))]
+        oku = len(takes) == 1 and cond_equiv(r, path_term(r, takes[0]), r.spec("len(U) != 0 and len(set(U)) == 1", env={"U": U}), [nU, nS])
+        chk.ob("io.ovf._from_ovf::unit-is-the-single-repeated-unit", oku, "C09.D9",
+               f"the unit is taken from the file under {r.show(path_term(r, takes[0]))[:200] if takes else '?'}; expected: the unit "
+               "list is non-empty and all its entries agree (then its first entry)", r.f, takes[0] if takes else None)
+    chk.ob("io.ovf._from_ovf::unit-list-found", ul is not None, "C09.D9", "header['valueunits'].split() not found", r.f)
+    # ---- dispatch: each extension set selects its own format
+    for q, calls in (("io._FieldIO.to_file", ("_to_ovf", "_to_vtk", "_to_hdf5")),
+                     ("io._FieldIO.from_file", ("_from_ovf", "_from_vtk", "_from_hdf5"))):
+        d = FV(repo, q)
+        sites = {}
+        for call, st in d.calls():
+            if isinstance(call.func, ast.Attribute) and call.func.attr in calls:
+                sites[call.func.attr] = st
+        chk.require(len(sites) == 3, f"{q}: the three format calls were not found")
+        tests = {}
+        for name, st in sites.items():
+            par = d.cfg.parent.get(id(st))
+            if par and isinstance(par[0], ast.If) and par[1] == "body":
+                tests[name] = d.ev.term(par[0].test, at=par[0])
+        for name, st in sites.items():
+            own = tests.get(name)
+            pt = path_term(d, st)
+            hd = d.ctx.head_of(own) if own is not None else None
+            pos = bool(hd and hd[0] == "cmp" and hd[1] in ("in", "eq"))
+            others = [d.ev._not(t_) for n_, t_ in tests.items() if n_ != name]
+            oks = own is not None and pos and cond_implies(d, pt, own) and \
+                cond_implies(d, d.ev._bool("and", [own] + others), pt)
+            chk.ob(f"{q}::{name}::selected-by-its-extensions", oks, "C09.D9",
+                   f"{name} runs under {d.show(pt)[:160]}; it must run for the extensions of its own format (a membership or "
+                   "equality test of the suffix) and for no others", d.f, st)
+    # ---- side-car writer opens for writing and knows how to encode regions
+    m = FV(repo, "io._MeshIO.save_subregions")
+    opens = [(call, st) for call, st in m.calls() if isinstance(call.func, ast.Attribute) and call.func.attr == "open"]
+    okm = False
+    for call, st in opens:
+        md = [k.value for k in call.keywords if k.arg == "mode"] + list(call.args[:1])
+        okm = any(isinstance(x, ast.Constant) and isinstance(x.value, str) and "w" in x.value for x in md)
+    chk.ob("io._MeshIO.save_subregions::opened-for-writing", okm, "C09.D9", "the side-car file must be opened in a write mode", m.f)
+    dumps = _calls_named(m, "json.dump")
+    okj = bool(dumps) and m.eq(dumps[0][2][1][0], m.spec("self.subregions")) and "cls" in dumps[0][2][2] and \
+        "JSONEncoder" in m.show(dumps[0][2][2]["cls"])
+    chk.ob("io._MeshIO.save_subregions::regions-encoded", okj, "C09.D9",
+           "json.dump(self.subregions, f, cls=<the Region JSON encoder>): plain json cannot serialise Region objects", m.f,
+           dumps[0][1] if dumps else None)
